@@ -151,12 +151,13 @@ type Cfg struct {
 
 // Dev is the device behind a target's connection
 type Dev struct {
-	Connected   bool   // connection + CONTROLS relation exist
-	Gen         bool   // generation of the current / next connection id
-	Vals        [NX]PV // device contents per leaf (Index = transaction whose value it holds)
-	MaxElection uint8  // highest election id seen
-	Sets        uint8  // number of accepted Sets (ghost)
-	LastSetTx   uint8  // ghost: transaction index of the last accepted change Set (0 = re-push)
+	Connected   bool     // connection + CONTROLS relation exist
+	Gen         bool     // generation of the current / next connection id
+	Vals        [NX]PV   // device contents per leaf (Index = transaction whose value it holds)
+	MaxElection uint8    // highest election id seen
+	Sets        uint8    // number of accepted Sets (ghost)
+	LastSetTx   uint8    // ghost: transaction index of the last accepted change Set (0 = re-push)
+	Got         [NX]bool // ghost: the device has accepted the change Set of proposal i at some time
 }
 
 // State is the whole system state (the state vector of the transition system)
@@ -737,6 +738,7 @@ func ghostSend(t int, el uint8) {
 		return // re-push by the configuration controller
 	}
 	x := CurX
+	S.Devs[t].Got[x] = true
 	if c.Committed < uint8(x+1) {
 		S.SendBeforeMerge = true
 	}
